@@ -624,8 +624,43 @@ def run_alias():
     return found, n
 
 
+def unbound_address_cases():
+    """the operating system refuses one of the listening addresses (bind fails).  Either the daemon does not run, or it does
+    not serve the connections of that address: an ACQUIRE for one of them must not leave an IKE_SA that can never send"""
+    from harness import scenarios as S
+    from harness.world import State
+    out, n = [], 0
+    A2 = '192.168.0.11'
+    for failing in (S.IP_A, A2):
+        n += 1
+        c = S.base_confs()
+        c['A']['conn_a2b'] = S.conn(A2, S.IP_B, "alice2@openikev2", "bob@openikev2", "testing", "testing2", [S.entry(9)])
+        c['B']['conn_ba2'] = S.conn(S.IP_B, A2, "bob@openikev2", "alice2@openikev2", "testing2", "testing", [S.entry(8)])
+        w = S.new_world(c, {'A': [S.IP_A, A2], 'B': [S.IP_B]})
+        a = w.endpoints['A']
+        a.bind_fail = {failing}
+        conn_idx = 0 if failing == S.IP_A else 1
+        w.step(('acquire', 'A', conn_idx, 0))
+        doc = dict(unbound=failing)
+        if not a.alive:
+            continue            # the daemon refuses to run without one of its addresses: nothing is accepted
+        stuck = [s for s in a.controller.ike_sas if str(s.my_addr) == failing]
+        sent = [d for d in w.net if d.src == failing]
+        if stuck and not sent:
+            out.append(('listen-address:unbound-address-still-served', 'bind() of %s failed, the daemon runs on, and an ACQUIRE for the '
+                        'connection configured on that address created an IKE_SA (%s) whose request cannot be sent' % (
+                            failing, [s.state.name for s in stuck]), doc))
+    return n, out
+
+
 def replay(path):
     doc = json.load(open(path))
+    if 'unbound' in doc:
+        viol = [v for v in unbound_address_cases()[1] if v[2]['unbound'] == doc['unbound']]
+        for v in viol:
+            print('reproduced:', v[0], v[1])
+        print('REPLAY %s' % ('reproduces a violation' if viol else 'does not reproduce'))
+        sys.exit(1 if viol else 0)
     d = eval(doc['dictionary_py'], {'__builtins__': {}, 'inf': INF, 'nan': NAN})   # written by this check: a literal
     print('dictionary:', doc['dictionary_py'][:3000])
     print('listening on:', LISTEN)
@@ -661,6 +696,10 @@ def main():
         for sig, (msg, doc) in sorted(r['found'].items()):
             ck.violation(sig, '%s  [base %s, deviations %s; exact dictionary in the replay file]' % (
                 msg, doc['base'], ', '.join(doc['deviations']) or 'none'), doc)
+    ub_n, ub_found = unbound_address_cases()
+    n += ub_n
+    for sig, msg, doc in ub_found:
+        ck.violation(sig, msg, doc)
     alias_found, alias_n = run_alias()
     n += alias_n
     per_family['alias'] = alias_n
